@@ -28,7 +28,7 @@ func init() {
 		explain: "Decided on the SSA program: (P08-cursor) ParseBlock cuts each line as text[previous end : next end], and on every path that keeps the line both the cursor and the byte count advance by that line; mapParse parses the next block from text[consumed:], adds the bytes the block consumed and the number of lines it holds, unconditionally; " +
 			"(P08-original / P08-folds = P03-result) Original() = Text + LineEnding, the rebuilt text and flatten() are unconditional in-order folds; (P08-nowriters) outside their constructors line fields are only stored in package reconciling; (P08-split) splitOffLineEnding returns a prefix and the matching suffix of its argument. " +
 			"Not covered: that 'last line' detection and block boundaries are right for every input (string arithmetic on positions).",
-		rules: []ruleFn{ruleP08Cursor, ruleP03Result, ruleP08NoWriters, ruleP08Split, ruleP06RuneWidth},
+		rules: []ruleFn{ruleP08Cursor, ruleP08LoopExit, ruleP03Result, ruleP08NoWriters, ruleP08Split, ruleP06RuneWidth},
 	})
 }
 
